@@ -92,6 +92,17 @@ def register(reg):
     reg.add(Contract(LP, 'from68', {'theWord': Int}, requires=W32, returns=Real,
                      ensures=['result == lis68(theWord)'], canaries=['result == 0'],
                      domains={'theWord': [0x444C8000, 0xBBB38000, 0, 0x40000000, 0x00400000, 0xFFC00000, 0x7FFFFFFF, 0xFF800001, 0x80000000, 0xFFFFFFFF]}))
+    # the encoder: saturation, zero, and for every number in the normal range a word whose value is v truncated towards zero
+    # to 23 fraction bits (so the loss is below one part in 2^22)
+    reg.add(Contract(LP, 'to68', {'v': Real}, returns=Int,
+                     ensures=['0 <= result and result <= 4294967295',
+                              'implies(v == 0, result == 1073741824)',
+                              'implies(v >= pow2(127), result == 2147483647)',
+                              'implies(v < -pow2(127), result == 4290772992)',
+                              'implies(v > 0 and v < pow2(-152), result == 1073741824)',
+                              'implies(v >= pow2(-129) and v < pow2(127), lis68(result) <= v and (v - lis68(result)) * 4194304 < v)',
+                              'implies(v <= -pow2(-129) and v > -pow2(127), lis68(result) >= v and (lis68(result) - v) * 4194304 < -v)'],
+                     canaries=['result == 1073741824', 'result == 2147483647'], crosscheck=False, timeout=60))
     reg.add(Contract(LP, 'from70', {'theWord': Int}, requires=W32, returns=Real,
                      ensures=['result == lis70(theWord)'], canaries=['result == 0']))
     reg.add(Contract(LP, 'from73', {'theWord': Int}, requires=['-2147483648 <= theWord', 'theWord < 2147483648'], returns=Int,
